@@ -20,6 +20,7 @@ from props import uf_world as uw
 marshaller_f = z3.Function("marshaller_of", Val, Val)
 unmarshaller_f = z3.Function("unmarshaller_of", Val, Val)
 isbytes_f = z3.Function("isbytestype", Val, BoolS)
+unwrap_f = z3.Function("unwrap", Val, Val)                 # inspection.unwrap(t): t with every wrapper layer removed (C11)
 
 
 def call2(f, x):
@@ -34,6 +35,8 @@ def make_interp():
     I.stubs["typelib.unmarshals.api.unmarshaller"] = I.stubs["typelib.unmarshals.unmarshaller"]
     I.stubs["typelib.py.inspection.isbytestype"] = Stub("inspection.isbytestype", lambda I, p, a, k: SBool(isbytes_f(to_val(a[0]))),
                                                         "isbytestype(t) <=> t is bytes-like (C17)")
+    I.stubs["typelib.py.inspection.unwrap"] = Stub("inspection.unwrap", lambda I, p, a, k: SV(unwrap_f(to_val(a[0]))),
+                                                   "unwrap(t): the type with every NewType / alias / qualifier layer removed (proved in C11)")
     return I
 
 
@@ -206,7 +209,7 @@ def _codec_one(chk, func, pid, path, out, cur, supplied, I):
     chk.add(Ob(func, names[0], pid, hy, z3.And(to_val(kw["marshal"]) == want_m, to_val(kw["unmarshal"]) == want_u)))
     enc, dec = kw["encoder"], kw["decoder"]
     is_given = (enc is cur["enc"]) and (dec is cur["dec"])
-    chk.add(Ob(func, names[1], pid, hy + [z3.Not(isbytes_f(t))], z3.BoolVal(bool(is_given))))
+    chk.add(Ob(func, names[1], pid, hy + [z3.Not(isbytes_f(unwrap_f(t)))], z3.BoolVal(bool(is_given))))
     # identity coders: call them on an arbitrary value
     ident = False
     if isinstance(enc, Closure) and isinstance(dec, Closure):
@@ -215,7 +218,7 @@ def _codec_one(chk, func, pid, path, out, cur, supplied, I):
             ident = (I.call_value(enc, [x], {}, path) is x) and (I.call_value(dec, [x], {}, path) is x)
         except Exception:
             ident = False
-    chk.add(Ob(func, names[2], pid, hy + [isbytes_f(t)], z3.BoolVal(bool(ident))))
+    chk.add(Ob(func, names[2], pid, hy + [isbytes_f(unwrap_f(t))], z3.BoolVal(bool(ident))))
 
 
 def backend_fact(chk):
